@@ -1,12 +1,13 @@
 import FoxModel.Util
 import FoxModel.Model.Serve
+import FoxModel.Model.LocationRaw
 import FoxModel.Driver.Ops
 /-
   FoxModel.Driver.Serve — stream `serve` (properties C08 C11 C17-guard):
   fields: ["serve", "<noMethod><autoOptions><globalTS>", "<routes>", "<requests>"]
     routes   = `;`-separated `method,patternhex,routeflag,hid`   (routeflag: 0 inherit, 1 ignore(true), 2 redirect(true),
                                                                     3 ignore(false), 4 redirect(false))
-    requests = `;`-separated `method,hosthex,pathhex,queryhex`
+    requests = `;`-separated `method,hosthex,pathhex,queryhex,urlpathhex,rawpathhex,escapedpathhex`   (pathhex = what the matcher sees)
   globalTS: 0 none, 1 WithIgnoreTrailingSlash(true), 2 WithRedirectTrailingSlash(true)
 -/
 namespace Fox.Driver.Serve
@@ -64,13 +65,17 @@ def handle (fields : List String) : String :=
     let methods := (store.map (·.1)).eraseDups
     let res := (splitNonEmpty reqs ";").map fun item =>
       match item.splitOn "," with
-      | [m, host, path, _query] =>
+      | [m, host, path, query, urlPathH, rawH, escH] =>
+        -- path: the string the matcher sees (URL.RawPath if set, else URL.Path); urlPath: URL.Path; raw: URL.RawPath;
+        -- esc: URL.EscapedPath() (standard library, supplied by the harness)
         let p := fromHex! path
-        let o := serve cfg tree.roots (ascii m) (fromHex! host) p p
-        let s := Spec.serve cfg methods (fun x => store.routesOf x) (ascii m) (fromHex! host) p p
-        (showOutcome o, if Ops.hasEmptySeg p then "skip" else showServed s, o.tags ++ [match o.kind with
+        let up := fromHex! urlPathH
+        let o := serve cfg tree.roots (ascii m) (fromHex! host) p up
+        let s := Spec.serve cfg methods (fun x => store.routesOf x) (ascii m) (fromHex! host) p up
+        let loc := if o.kind == Kind.redirect then ":" ++ toHex (Location.redirectLocation (fromHex! rawH) (fromHex! escH) (fromHex! query)) else ""
+        (showOutcome o ++ loc, if Ops.hasEmptySeg p then "skip" else showServed s, o.tags ++ [match o.kind with
           | .route => "k-route" | .redirect => "k-redirect" | .options => "k-options" | .noMethod => "k-nomethod"
-          | .noRoute => "k-noroute" | .bad => "k-bad"])
+          | .noRoute => "k-noroute" | .bad => "k-bad"] ++ (if rawH != "_" then ["raw-path"] else []))
       | _ => ("bad-req", "bad-req", [])
     -- finding tags carry the index of the request they belong to (attribution is per request)
     let indexed := (List.range res.length).zip res
